@@ -1,5 +1,6 @@
 import ZkModel.Public
 import ZkModel.TreeDriver
+import ZkModel.Keygen
 /-!
 # Protocol / codec / RLN-object part of the line protocol
 -/
@@ -186,6 +187,16 @@ def stepPure (e : PEnv) (w : List String) : Option String :=
       if b.length < 64 then "panic" else s!"{fr (Spec.decFr b 0)} {fr (Spec.decFr b 32)}")
   | ["id_tuple_de", b] => (parseHexBytes b).map (fun b =>
       if b.length < 128 then "panic" else s!"{fr (Spec.decFr b 0)} {fr (Spec.decFr b 32)} {fr (Spec.decFr b 64)} {fr (Spec.decFr b 96)}")
+  | ["keygen_seeded", b] => (parseHexBytes b).map (fun b =>
+      match Keygen.seededKeygen e.H b with | some (s, c) => s!"{fr s} {fr c}" | none => "model-out-of-fuel")
+  | ["keygen_ext_seeded", b] => (parseHexBytes b).map (fun b =>
+      match Keygen.extendedSeededKeygen e.H b with | some (t, n, s, c) => s!"{fr t} {fr n} {fr s} {fr c}" | none => "model-out-of-fuel")
+  | ["rln", "seeded_key_gen", b] | ["ffi_seeded_key_gen", b] => (parseHexBytes b).map (fun b =>
+      match Keygen.seededKeygen e.H b with | some (s, c) => "ok " ++ showBytes (natLE 32 s ++ natLE 32 c) | none => "model-out-of-fuel")
+  | ["rln", "seeded_ext_key_gen", b] | ["ffi_seeded_ext_key_gen", b] => (parseHexBytes b).map (fun b =>
+      match Keygen.extendedSeededKeygen e.H b with
+      | some (t, n, s, c) => "ok " ++ showBytes (natLE 32 t ++ natLE 32 n ++ natLE 32 s ++ natLE 32 c) | none => "model-out-of-fuel")
+  | ["keygen"] | ["keygen_ext"] | ["rln", "key_gen"] | ["rln", "ext_key_gen"] | ["ffi_key_gen"] | ["ffi_ext_key_gen"] => some "n/a"
   | ["oracle", _] => some "n/a"
   | _ => none
 
